@@ -237,6 +237,43 @@ def body_gradient(env):
                   abs(float(np.dot(np.array(N) * A, x)) / float(r.bundle_params['area']) - 1) < 1e-12, key='mass_not_conserved')
 
 
+def body_gradient_grid(env):
+    """Cheng-Todreas family with spacer grids given by a correlation (REH / CDD), laminar and turbulent bundle Reynolds numbers:
+    the split the real routines return (successive approximation) gives the three subchannel types the same pressure loss over
+    the region, friction f_i L / De_i plus the loss of *all* grids of the region, each times x_i^2.  Concrete evaluation per
+    enumerated bundle / grid count / regime (no symbolic input); tolerance 1e-3 relative (the iteration stops at its own
+    tolerance: 2e-5 observed on the pinned tree)."""
+    fs, n, ng, gcorr = env.params['fs'], env.params['n_ring'], env.params['n_grid'], env.params['grid_corr']
+    sg = {'corr': gcorr, 'corr_coeff': None, 'loss_coeff': None, 'axial_positions': [0.02 * (i + 1) for i in range(ng)], 'solidity': None}
+    r = fixtures.make_rodded(n, 1, fr=1.0, corr=(fs, fs, fs), coolant=fixtures.fixed_material(), duct=fixtures.duct_material(), spacer_grid=sg)
+    r.z = [0.0, 0.2]
+    for Re in (200.0, 5.0e4):
+        fr = Re * r.coolant.viscosity * r.bundle_params['area'] / r.bundle_params['de']
+        c = r.clone(new_flowrate=fr)
+        c.z = [0.0, 0.2]
+        c._init_static_correlated_params(623.15)
+        p = c.coolant_int_params
+        x = np.asarray(p['fs'], dtype=float)
+        De = np.asarray(c.params['de'], dtype=float)
+        Rei = float(p['Re']) * x * De / float(c.bundle_params['de'])
+        cc = c.corr_constants['ff']
+        ReL, ReT = cc['Re_bnds']
+        if float(p['Re']) <= ReL:
+            reg, f = 'laminar', np.asarray(cc['Cf_sc']['laminar'], dtype=float) / Rei
+        elif float(p['Re']) >= ReT:
+            reg, f = 'turbulent', np.asarray(cc['Cf_sc']['turbulent'], dtype=float) / Rei ** 0.18
+        else:
+            env.holds('fixture: Re = %g lies outside the transition regime' % Re, False)
+            continue
+        loss = (f * (c.z[1] - c.z[0]) / De + float(p['grid_loss_coeff']) * ng) * x ** 2
+        env.holds('%s: friction plus the loss of all %d grids equal over interior, edge and corner subchannels (1e-3 relative)' % (reg, ng),
+                  bool(np.all(np.abs(loss / loss[0] - 1) < 1e-3)), key='pressure_gradients_differ')
+        N = [c.subchannel.n_sc['coolant'][k] for k in ('interior', 'edge', 'corner')]
+        A = np.asarray(c.params['area'], dtype=float)
+        env.holds('%s: split with grids conserves mass (1e-9 relative)' % reg,
+                  abs(float(np.dot(np.array(N) * A, x)) / float(c.bundle_params['area']) - 1) < 1e-9, key='mass_not_conserved')
+
+
 def _for_body(func):
     """Lift the body of the first for-loop of `func` (symx.loops works on while loops; same idea)."""
     import ast
@@ -278,6 +315,11 @@ def instances(tier):
     for fs in ('CTD', 'UCTD'):
         for n in ((2, 3, 5) if tier == 'quick' else (2, 3, 4, 5, 7, 9, 12)):
             inst.append(dict(label='ct-gradient[fs=%s,rings=%d]' % (fs, n), body=body_gradient, params={'fs': fs, 'n_ring': n}, check_vacuity=False))
+    for fs in ('CTD', 'UCTD'):
+        for n, ng, gc in (((2, 2, 'REH'), (3, 4, 'CDD'), (3, 1, 'REH')) if tier == 'quick' else
+                          ((2, 1, 'REH'), (2, 2, 'REH'), (2, 4, 'CDD'), (3, 2, 'CDD'), (3, 4, 'REH'), (5, 2, 'REH'), (5, 4, 'CDD'))):
+            inst.append(dict(label='ct-gradient-grid[fs=%s,rings=%d,grids=%d by %s]' % (fs, n, ng, gc), body=body_gradient_grid,
+                             params={'fs': fs, 'n_ring': n, 'n_grid': ng, 'grid_corr': gc}, check_vacuity=False))
     if tier == 'thorough':
         for c in combos:
             if c[0] in ('CTD', 'UCTD') and c[1] in ('CTD', 'UCTD'):
